@@ -335,8 +335,12 @@ namespace bloch::cli {
                                       << " | " << std::setw(5) << "prob"
                                       << "\n";
                             std::cout << std::string(outcomeWidth, '-') << "-+-------+-----\n";
+                            // A variable is recorded once per scope exit, which can be several
+                            // times per shot, so probabilities are relative to its own total.
+                            long total = 0;
+                            for (const auto& p : vals) total += p.second;
                             for (auto& p : vals) {
-                                double prob = static_cast<double>(p.second) / shots;
+                                double prob = static_cast<double>(p.second) / total;
                                 std::cout << std::left << std::setw(static_cast<int>(outcomeWidth))
                                           << p.first << " | " << std::right << std::setw(5)
                                           << p.second << " | " << std::setw(5) << prob << "\n";
